@@ -65,7 +65,6 @@ static int all_bytes(const u8 *a, u8 v) { for (int i = 0; i < 16; i++) if (a[i] 
 /* the IPv4 addresses 0.0.0.0 / 255.255.255.255 */
 static int is_v4_zero(const u8 *a) { return is_v4(a) && a[12] == 0 && a[13] == 0 && a[14] == 0 && a[15] == 0; }
 static int is_v4_ones(const u8 *a) { return is_v4(a) && a[12] == 0xff && a[13] == 0xff && a[14] == 0xff && a[15] == 0xff; }
-static int v4_corner(const u8 *a) { return is_v4_zero(a) || is_v4_ones(a); }
 /* byte i of the mask with the top P bits set (0 <= P <= 128) */
 static u8 prefix_byte(int P, int i)
 {
@@ -127,19 +126,14 @@ void h_ops(void)
     cpy16(t_x, a); cpy16(t_y, b);
     int c = cmp16(a, b);
     int m = ip_match(a, b), le = ip_le(a, b), ge = ip_ge(a, b), lt = ip_lt(a, b), gt = ip_gt(a, b);
-    /* the pairs where the operators' "content-neutral" special cases (isAnyAddr / isNoAddr) contradict the numeric order:
-     * a is IPv4 0.0.0.0 and b an IPv6 address numerically below the IPv4 block; a is IPv4 255.255.255.255 and b above it */
-    int cross = v4_corner(a) && !is_v4(b);
 #ifdef TWIN_OPS
-    __CPROVER_assert(!(!cross) || (le != 0) != (c <= 0), "ensures: TWIN (negated) <= is the numeric order");
+    __CPROVER_assert((le != 0) != (c <= 0), "ensures: TWIN (negated) <= is the numeric order");
 #else
     __CPROVER_assert(ip_is_v4(a) == is_v4(a) && ip_is_v6(a) == !is_v4(a), "ensures: isIPv4() holds exactly for ::ffff:0:0/96 and isIPv6() for everything else (the families of 'ipv4' / 'ipv6')");
     __CPROVER_assert(m == c, "ensures: matchIPAddr(a,b) is -1/0/+1 = the numeric order of the two 16-byte addresses in network byte order");
     __CPROVER_assert(ip_eq(a, b) == (c == 0) && ip_ne(a, b) == (c != 0), "ensures: == and != are equality of the 16 address bytes");
-    __CPROVER_assert(cross || ((le != 0) == (c <= 0) && (lt != 0) == (c < 0)), "ensures: [not (a is IPv4 0.0.0.0/255.255.255.255 and b is IPv6)] a <= b and a < b are the numeric order");
-    __CPROVER_assert(cross || ((ge != 0) == (c >= 0) && (gt != 0) == (c > 0)), "ensures: [not (a is IPv4 0.0.0.0/255.255.255.255 and b is IPv6)] a >= b and a > b are the numeric order");
-    __CPROVER_assert(!cross || ((le != 0) == (c <= 0) && (lt != 0) == (c < 0) && (ge != 0) == (c >= 0) && (gt != 0) == (c > 0)),
-                     "ensures: [a is IPv4 0.0.0.0 or 255.255.255.255, b is IPv6] <=, <, >=, > are the numeric order (a consistent order across both families, which share one tree)");
+    __CPROVER_assert((le != 0) == (c <= 0) && (lt != 0) == (c < 0), "ensures: a <= b and a < b are the numeric order, for ALL pairs (IPv4 0.0.0.0 / 255.255.255.255 against IPv6 included: one consistent order across both families, which share one tree)");
+    __CPROVER_assert((ge != 0) == (c >= 0) && (gt != 0) == (c > 0), "ensures: a >= b and a > b are the numeric order, for ALL pairs");
     __CPROVER_assert(ip_is_any(a) == (all_bytes(a, 0) || is_v4_zero(a)), "api: isAnyAddr() is true exactly for :: and IPv4 0.0.0.0 (ip/Address.h)");
     __CPROVER_assert(ip_is_no(a) == (all_bytes(a, 0xff) || is_v4_ones(a)), "api: isNoAddr() is true exactly for ffff:...:ffff and IPv4 255.255.255.255 (ip/Address.h)");
 #endif
@@ -237,17 +231,13 @@ void h_lookup(void)
     int r = acl_lookup(x, &e);
     int in = spec_in(x, &e, range);
     spec_lo(lo, &e); spec_hi(hi, &e, range);
-    u8 xm[16];
-    and16(xm, x, e.m);
-    int corner = v4_corner(xm);     /* the address as the comparator sees it: under the entry's mask */
 #ifdef TWIN_LOOKUP
-    __CPROVER_assert(corner || (r == 0) != (in != 0), "ensures: TWIN (negated) lookup comparator 0 iff member");
+    __CPROVER_assert((r == 0) != (in != 0), "ensures: TWIN (negated) lookup comparator 0 iff member");
 #else
     __CPROVER_assert(in == (cmp16(lo, x) <= 0 && cmp16(x, hi) <= 0), "lemma: the set of a well-formed value is the interval [addr1, (addr2 or addr1) | ~mask]");
-    __CPROVER_assert(corner || (r == 0) == (in != 0), "ensures: [address under the value's mask is not IPv4 0.0.0.0/255.255.255.255] the lookup comparator returns 0 exactly when the address belongs to the configured value's set");
-    __CPROVER_assert(!corner || (r == 0) == (in != 0), "ensures: [address under the value's mask is IPv4 0.0.0.0 or 255.255.255.255] the lookup comparator returns 0 exactly when the address belongs to the configured value's set");
-    __CPROVER_assert(corner || !(!in && cmp16(x, lo) < 0) || r < 0, "ensures: [address under the value's mask is not IPv4 0.0.0.0/255.255.255.255] an address below the value's interval is ordered before it");
-    __CPROVER_assert(corner || !(!in && cmp16(x, hi) > 0) || r > 0, "ensures: [address under the value's mask is not IPv4 0.0.0.0/255.255.255.255] an address above the value's interval is ordered after it");
+    __CPROVER_assert((r == 0) == (in != 0), "ensures: the lookup comparator returns 0 exactly when the address belongs to the configured value's set (every address, IPv4 0.0.0.0 and 255.255.255.255 included)");
+    __CPROVER_assert(!(!in && cmp16(x, lo) < 0) || r < 0, "ensures: an address below the value's interval is ordered before it");
+    __CPROVER_assert(!(!in && cmp16(x, hi) > 0) || r > 0, "ensures: an address above the value's interval is ordered after it");
 #endif
 #ifdef REACH
     __CPROVER_assert(!(r == 0 && !range && e.m[15] == 0 && is_v4(x)), "reach: IPv4 address inside a network");
@@ -273,18 +263,15 @@ void h_subset(void)
     trace_ent(&t_a, &a); trace_ent(&t_b, &b); t_ra = ra; t_rb = rb;
     spec_lo(loa, &a); spec_hi(hia, &a, ra); spec_lo(lob, &b); spec_hi(hib, &b, rb);
     int before = cmp16(hia, lob) < 0, after = cmp16(loa, hib) > 0;     /* disjoint intervals; otherwise they intersect */
-    int corner = v4_corner(loa) || v4_corner(hia) || v4_corner(lob) || v4_corner(hib);
     int c1 = acl_compare(&a, &b);
 #if defined(T_PAIR)
     int c2 = acl_compare(&b, &a);
 #ifdef TWIN_PAIR
-    __CPROVER_assert(corner || (c1 == 0) != (!before && !after), "ensures: TWIN (negated) Compare 0 iff the sets intersect");
+    __CPROVER_assert((c1 == 0) != (!before && !after), "ensures: TWIN (negated) Compare 0 iff the sets intersect");
 #else
-    __CPROVER_assert(corner || sgn(c1) == -sgn(c2), "ensures: [no bound is IPv4 0.0.0.0/255.255.255.255] Compare(a,b) and Compare(b,a) have opposite signs or are both 0");
-    __CPROVER_assert(corner || (c1 == 0) == (!before && !after), "ensures: [no bound is IPv4 0.0.0.0/255.255.255.255] Compare(a,b) == 0 exactly when the two sets have a common address (reported as overlap)");
-    __CPROVER_assert(corner || ((c1 < 0) == before && (c1 > 0) == after), "ensures: [no bound is IPv4 0.0.0.0/255.255.255.255] disjoint sets are ordered by Compare as their intervals are in the numeric order");
-    __CPROVER_assert(!corner || (sgn(c1) == -sgn(c2) && (c1 == 0) == (!before && !after) && (c1 < 0) == before && (c1 > 0) == after),
-                     "ensures: [a bound is IPv4 0.0.0.0 or 255.255.255.255] Compare is antisymmetric, 0 exactly on overlap, and the numeric order otherwise");
+    __CPROVER_assert(sgn(c1) == -sgn(c2), "ensures: Compare(a,b) and Compare(b,a) have opposite signs or are both 0");
+    __CPROVER_assert((c1 == 0) == (!before && !after), "ensures: Compare(a,b) == 0 exactly when the two sets have a common address (reported as overlap)");
+    __CPROVER_assert(((c1 < 0) == before && (c1 > 0) == after), "ensures: disjoint sets are ordered by Compare as their intervals are in the numeric order");
 #endif
 #ifdef REACH
     __CPROVER_assert(!(c1 == 0 && !ra && !rb && !eq16(a.m, b.m)), "reach: network inside a network");
@@ -297,11 +284,10 @@ void h_subset(void)
     acl_first(&a, fa); acl_last(&a, la);
     int sub_ab = cmp16(lob, loa) <= 0 && cmp16(hia, hib) <= 0, sub_ba = cmp16(loa, lob) <= 0 && cmp16(hib, hia) <= 0;
 #ifdef TWIN_SUBSET
-    __CPROVER_assert(corner || !(c1 == 0) || (s_ab != 0) != sub_ab, "ensures: TWIN (negated) IsSubset is set inclusion");
+    __CPROVER_assert(!(c1 == 0) || (s_ab != 0) != sub_ab, "ensures: TWIN (negated) IsSubset is set inclusion");
 #else
     __CPROVER_assert(eq16(fa, loa) && eq16(la, hia), "ensures: firstAddress() / lastAddress() are the least / greatest member of the value's set");
-    __CPROVER_assert(corner || !(c1 == 0) || ((s_ab != 0) == sub_ab && (s_ba != 0) == sub_ba), "ensures: [no bound is IPv4 0.0.0.0/255.255.255.255] for overlapping values IsSubset(a,b) holds exactly when every address of a is in b (Merge() may drop a)");
-    __CPROVER_assert(!corner || !(c1 == 0) || ((s_ab != 0) == sub_ab && (s_ba != 0) == sub_ba), "ensures: [a bound is IPv4 0.0.0.0 or 255.255.255.255] IsSubset(a,b) holds exactly when every address of a is in b");
+    __CPROVER_assert(!(c1 == 0) || ((s_ab != 0) == sub_ab && (s_ba != 0) == sub_ba), "ensures: for overlapping values IsSubset(a,b) holds exactly when every address of a is in b (Merge() may drop a)");
 #endif
 #ifdef REACH
     __CPROVER_assert(!(c1 == 0 && s_ab && !s_ba && !ra && !rb), "reach: network inside a network");
@@ -322,9 +308,6 @@ void h_triple(void)
     ARBITRARY_ENTRY(b, rb)
     cpy16(t_x, x); trace_ent(&t_a, &a); trace_ent(&t_b, &b); t_ra = ra; t_rb = rb;
     spec_lo(loa, &a); spec_hi(hia, &a, ra); spec_lo(lob, &b); spec_hi(hib, &b, rb);
-    /* the pairs and addresses on which the known finding (targets ops / lookup / pair) shows are left to those targets */
-    { u8 xa[16], xb[16]; and16(xa, x, a.m); and16(xb, x, b.m);
-      __CPROVER_assume(!v4_corner(xa) && !v4_corner(xb) && !v4_corner(loa) && !v4_corner(hia) && !v4_corner(lob) && !v4_corner(hib)); }
     int m_a = acl_lookup(x, &a), m_b = acl_lookup(x, &b);
     int c = acl_compare(&a, &b);
     int s_ab = acl_issubset(&a, &b);
@@ -351,14 +334,10 @@ void h_triple(void)
 #if defined(T_ORDER)
 void h_order(void)
 {
-    u8 lo[16], hi[16];
     ARBITRARY_ENTRY(n, rn)
     ARBITRARY_ENTRY(a, ra)
     ARBITRARY_ENTRY(b, rb)
     trace_ent(&t_n, &n); trace_ent(&t_a, &a); trace_ent(&t_b, &b); t_rn = rn; t_ra = ra; t_rb = rb;
-    spec_lo(lo, &n); spec_hi(hi, &n, rn); __CPROVER_assume(!v4_corner(lo) && !v4_corner(hi));
-    spec_lo(lo, &a); spec_hi(hi, &a, ra); __CPROVER_assume(!v4_corner(lo) && !v4_corner(hi));
-    spec_lo(lo, &b); spec_hi(hi, &b, rb); __CPROVER_assume(!v4_corner(lo) && !v4_corner(hi));
     int c_ab = acl_compare(&a, &b), c_na = acl_compare(&n, &a), c_nb = acl_compare(&n, &b);
 #ifdef TWIN_ORDER
     __CPROVER_assert(!(c_ab < 0) || sgn(c_na) < sgn(c_nb), "ensures: TWIN (negated) monotone");
@@ -388,7 +367,6 @@ void h_combine(void)
     int before = cmp16(hia, lob) < 0, after = cmp16(loa, hib) > 0;
     int sub_ab = cmp16(lob, loa) <= 0 && cmp16(hia, hib) <= 0, sub_ba = cmp16(loa, lob) <= 0 && cmp16(hib, hia) <= 0;
     __CPROVER_assume(!before && !after && !sub_ab && !sub_ba);
-    __CPROVER_assume(!v4_corner(x));
     acl_combine(&a, &b, &r);
     int v4 = is_v4(r.a1);
     int m_r = acl_lookup(x, &r);
@@ -396,7 +374,7 @@ void h_combine(void)
 #ifdef TWIN_COMBINE
     __CPROVER_assert((m_r == 0) != (in != 0), "ensures: TWIN (negated) combined value == union");
 #else
-    __CPROVER_assert((m_r == 0) == (in != 0), "ensures: [address is not IPv4 0.0.0.0/255.255.255.255] the value Merge() stores for two partially overlapping values matches exactly the addresses of their union");
+    __CPROVER_assert((m_r == 0) == (in != 0), "ensures: the value Merge() stores for two partially overlapping values matches exactly the addresses of their union");
     __CPROVER_assert(eq16(r.a1, cmp16(loa, lob) <= 0 ? loa : lob) && eq16(r.a2, cmp16(hia, hib) >= 0 ? hia : hib) && all_bytes(r.m, 0xff),
                      "ensures: the combined value is the range from the smaller first address to the greater last address, mask all ones");
     __CPROVER_assert(is_v4(r.a1) != is_v4(r.a2) || wf(&r, v4, 128, 1), "lemma: a combined value whose ends are of one family is again a well-formed stored range (the comparator facts apply to it)");
@@ -418,7 +396,6 @@ void h_match(void)
     any4 = any4 ? 1 : 0; any6 = any6 ? 1 : 0; have = have ? 1 : 0;
     ARBITRARY_ENTRY(e, range)
     cpy16(t_x, x); trace_ent(&t_a, &e); t_ra = range; t_any4 = any4; t_any6 = any6; t_have = have;
-    { u8 xm[16]; and16(xm, x, e.m); __CPROVER_assume(!v4_corner(xm)); }       /* the addresses of the known finding are left to target lookup */
     int r = acl_match(x, any4, any6, have, &e);
     int want = (any4 && is_v4(x)) || (any6 && !is_v4(x)) || (have && spec_in(x, &e, range));
 #ifdef TWIN_MATCH
